@@ -88,7 +88,8 @@ func Outline(dir string, conf *Config) (out outline.Package, err error) {
 		imp = NewImporter(mod, xgo, fset)
 	}
 
-	for name, pkg := range pkgs {
+	for _, name := range sortedPkgNames(pkgs) {
+		pkg := pkgs[name]
 		if out.Valid() {
 			err = fmt.Errorf("%w: %s, %s", ErrMultiPackges, name, out.Pkg().Name())
 			return
